@@ -1,16 +1,910 @@
-//! C02 — not built yet (stub; see DESIGN.md §5).
-use crate::ctx::Tier;
-use serde_json::Value;
+//! C02 — hostile bytes never crash a parser or reader; only consistent frames parse.
+//!
+//! Bounded-exhaustive enumeration of input byte strings (`c02_cases.rs`), each
+//! executed on every parsing / stream-reading entry point of the real crate
+//! (`c02_exec.rs`) and compared with the independent frame oracle
+//! (`frames::Hdr::consistent_total`, u128 arithmetic).
+//!
+//! An allocation failure aborts the process, so the cases run in worker
+//! processes (`mc C02 --worker batch ...`). A worker announces every case before
+//! running it; when a worker dies, the parent re-runs the announced case alone
+//! (`--worker case`, which announces every entry point), reports the entry
+//! point that killed it, and resumes the batch after that case.
 
-pub fn run(_tier: Tier) -> ! {
-    eprintln!("MACHINERY-ERROR property=C02 check not built yet");
-    std::process::exit(2)
+#[path = "c02_cases.rs"]
+mod cases;
+#[path = "c02_exec.rs"]
+mod exec;
+#[path = "c02_net.rs"]
+mod net;
+
+use crate::ctx::{Ctx, Samples, Tier};
+use cases::{Family, Input, families};
+use exec::{Counters, ENTRIES, ERR_CLASSES, REF_CLASSES, Slot};
+use serde_json::{Value, json};
+use std::collections::{BTreeMap, VecDeque};
+use std::io::{BufRead, BufReader, Read, Write};
+use std::os::unix::process::ExitStatusExt;
+use std::process::{Command, ExitStatus, Stdio};
+use std::sync::Mutex;
+use std::sync::atomic::{AtomicBool, AtomicU32, AtomicU64, Ordering};
+use std::time::{Duration, Instant};
+
+/// a worker that announces no new case for this long is killed and the case reported as a hang
+const WATCHDOG: Duration = Duration::from_secs(90);
+/// crashing cases for which every entry point is attributed separately (one extra process per crash)
+const FULL_ATTRIBUTION_CASES: u32 = 4;
+/// violation lines a batch worker prints per key (the rest are only counted)
+const EMIT_PER_KEY: u32 = 2;
+
+// ===================================================================== worker
+
+fn tier_of(s: &str) -> Tier {
+    match s {
+        "quick" => Tier::Quick,
+        "thorough" => Tier::Thorough,
+        _ => {
+            println!("Hbad tier {s}");
+            std::process::exit(3)
+        }
+    }
 }
 
-pub fn replay(_case: &Value) -> Result<(), String> {
-    Err("no replay for C02 yet".into())
+fn emit(line: &str) {
+    let mut o = std::io::stdout().lock();
+    if o.write_all(line.as_bytes()).and_then(|_| o.write_all(b"\n")).and_then(|_| o.flush()).is_err() {
+        std::process::exit(3); // parent is gone
+    }
 }
 
-pub fn worker(_args: &[String]) {
-    std::process::exit(2)
+fn worker_setup() {
+    unsafe {
+        let none = libc::rlimit { rlim_cur: 0, rlim_max: 0 };
+        libc::setrlimit(libc::RLIMIT_CORE, &none);
+        // safety net only: every allocation the property allows is <= 2 x 16 MiB (+ the input),
+        // every forbidden one is >= 2^62, so no verdict depends on this limit
+        let lim = libc::rlimit { rlim_cur: 4 << 30, rlim_max: 4 << 30 };
+        libc::setrlimit(libc::RLIMIT_AS, &lim);
+    }
+    std::panic::set_hook(Box::new(|info| {
+        let payload = info.payload();
+        let msg = payload
+            .downcast_ref::<&str>()
+            .map(|s| s.to_string())
+            .or_else(|| payload.downcast_ref::<String>().cloned())
+            .unwrap_or_else(|| "<non-string panic payload>".into());
+        let loc = info.location().map(|l| format!(" at {}:{}", l.file(), l.line())).unwrap_or_default();
+        if exec::IN_SUT.with(|f| f.get()) {
+            exec::LAST_PANIC.with(|p| *p.borrow_mut() = format!("{msg}{loc}"));
+        } else {
+            // a panic of the harness itself is never a verdict
+            println!("H{}{}", msg.replace('\n', " "), loc);
+            std::process::exit(2);
+        }
+    }));
+}
+
+fn case_json(fam: &str, idx: Option<u64>, input: &Input, slot: &str) -> Value {
+    json!({"family": fam, "index": idx, "input": input.to_json(), "slot": slot})
+}
+
+fn outcome_summary(slot: Slot, bytes: &[u8], r: &exec::RefInfo) -> String {
+    match exec::execute(slot, bytes, r) {
+        exec::Res::Ok(g) => format!("Ok(q={},b={})", g.query.len(), g.body.len()),
+        exec::Res::Err(k, _) => format!("Err({})", ERR_CLASSES[k]),
+        exec::Res::Panic(m) => format!("PANIC({m})"),
+        exec::Res::Livelock => "LIVELOCK".into(),
+    }
+}
+
+fn worker_batch(tier: Tier, fi: usize, start: u64, end: u64) {
+    let fams = families(tier);
+    let fam = &fams[fi];
+    let all = exec::slots();
+    let mut c = Counters::default();
+    let mut emitted: BTreeMap<String, u32> = BTreeMap::new();
+    for idx in start..end {
+        let input = fam.get(idx);
+        let bytes = input.materialize();
+        let r = exec::classify(&bytes);
+        emit(&format!("@{idx} {:016x}", exec::fnv64(&bytes)));
+        c.inputs += 1;
+        c.ref_class[r.class as usize] += 1;
+        if exec::stream_allowed(&r) {
+            c.stream_inputs += 1;
+        } else {
+            c.stream_inputs_skipped_midrange += 1;
+        }
+        for (_, slot) in exec::applicable(&all, &r) {
+            if let Some(f) = exec::check(slot, &bytes, &r, &mut c) {
+                c.violations += 1;
+                *c.violations_by_key.entry(f.key.clone()).or_insert(0) += 1;
+                let n = emitted.entry(f.key.clone()).or_insert(0);
+                if *n < EMIT_PER_KEY {
+                    *n += 1;
+                    emit(&format!(
+                        "V{}",
+                        json!({"key": f.key, "what": f.what, "case": case_json(fam.name, Some(idx), &input, &f.slot)})
+                    ));
+                }
+            }
+        }
+        if idx == 0 || idx == fam.len / 2 {
+            // evidence sample: what every entry point answered for this input (not counted)
+            let outcomes: BTreeMap<String, String> =
+                exec::applicable(&all, &r).map(|(_, s)| (s.name(), outcome_summary(s, &bytes, &r))).collect();
+            let mut distinct: BTreeMap<String, Vec<String>> = BTreeMap::new();
+            for (k, v) in outcomes {
+                distinct.entry(v).or_default().push(k);
+            }
+            emit(&format!(
+                "S{}",
+                json!({"family": fam.name, "index": idx, "input": exec::describe_input(&bytes, &r),
+                       "outcomes": distinct.iter().map(|(o, s)| json!({"outcome": o, "slots": s.len(), "first_slot": s[0]})).collect::<Vec<_>>()})
+            ));
+        }
+    }
+    emit(&format!("D{}", c.to_json()));
+}
+
+/// One input, every applicable slot from `slot_from` on, each announced first.
+fn worker_isolated(fam_name: &str, idx: Option<u64>, input: &Input, slot_from: usize) {
+    let all = exec::slots();
+    let bytes = input.materialize();
+    let r = exec::classify(&bytes);
+    let mut c = Counters::default();
+    for (si, slot) in exec::applicable(&all, &r) {
+        if si < slot_from {
+            continue;
+        }
+        emit(&format!("E{si}"));
+        if let Some(f) = exec::check(slot, &bytes, &r, &mut c) {
+            emit(&format!("V{}", json!({"key": f.key, "what": f.what, "case": case_json(fam_name, idx, input, &f.slot)})));
+        }
+    }
+    emit(&format!("D{}", c.to_json()));
+}
+
+pub fn worker(args: &[String]) {
+    if args.first().map(|s| s.as_str()) != Some("net") {
+        worker_setup();
+    }
+    let num = |i: usize| -> u64 {
+        args.get(i).and_then(|s| s.parse().ok()).unwrap_or_else(|| {
+            println!("Hbad worker arguments {args:?}");
+            std::process::exit(3)
+        })
+    };
+    match args.first().map(|s| s.as_str()) {
+        Some("batch") => worker_batch(tier_of(&args[1]), num(2) as usize, num(3), num(4)),
+        Some("case") => {
+            let fams = families(tier_of(&args[1]));
+            let fam = &fams[num(2) as usize];
+            let idx = num(3);
+            worker_isolated(fam.name, Some(idx), &fam.get(idx), num(4) as usize);
+        }
+        Some("hex") => {
+            let head = cases::unhex(&args[1]).unwrap_or_else(|e| {
+                println!("Hbad hex: {e}");
+                std::process::exit(3)
+            });
+            let input = Input { head, tail_len: num(2) as usize };
+            worker_isolated("replay", None, &input, num(3) as usize);
+        }
+        Some("net") => net::worker(num(1) as usize, num(2) as usize, &|l| emit(l)),
+        _ => {
+            println!("Hunknown worker mode {args:?}");
+            std::process::exit(3)
+        }
+    }
+    std::process::exit(0)
+}
+
+// ===================================================================== parent
+
+fn exe() -> std::path::PathBuf {
+    std::env::current_exe().expect("current_exe")
+}
+
+fn death(status: &ExitStatus, timed_out: bool) -> (String, String) {
+    // (key fragment, human text)
+    if timed_out {
+        return ("hang".into(), format!("made no progress for {} s and was killed", WATCHDOG.as_secs()));
+    }
+    if let Some(sig) = status.signal() {
+        let name = match sig {
+            6 => "SIGABRT".to_string(),
+            11 => "SIGSEGV".to_string(),
+            7 => "SIGBUS".to_string(),
+            4 => "SIGILL".to_string(),
+            9 => "SIGKILL".to_string(),
+            n => format!("signal-{n}"),
+        };
+        return (format!("abort:{name}"), format!("killed the process with {name}"));
+    }
+    let code = status.code().unwrap_or(-1);
+    (format!("abort:exit-{code}"), format!("terminated the process with exit status {code}"))
+}
+
+#[derive(Clone)]
+struct Found {
+    fam: usize,
+    idx: u64,
+    slot_order: usize,
+    key: String,
+    what: String,
+    case: Value,
+}
+
+/// The line of a dead child's stderr that says why it died.
+fn stderr_digest(stderr: &str) -> String {
+    let interesting = ["memory allocation", "panicked at", "fatal runtime error", "capacity overflow", "stack overflow"];
+    stderr
+        .lines()
+        .find(|l| interesting.iter().any(|k| l.contains(k)))
+        .or_else(|| stderr.lines().rev().find(|l| !l.trim().is_empty() && !l.starts_with("[repe]")))
+        .unwrap_or("")
+        .trim()
+        .to_string()
+}
+
+struct ChildOut {
+    stdout: String,
+    stderr: String,
+    status: ExitStatus,
+    timed_out: bool,
+}
+
+/// Runs a short-lived child to completion, capturing both streams, with a kill-after timeout.
+fn run_child(args: &[String], timeout: Duration) -> Result<ChildOut, String> {
+    let mut child = Command::new(exe())
+        .arg("C02")
+        .arg("--worker")
+        .args(args)
+        .env("RUST_BACKTRACE", "0")
+        .stdin(Stdio::null())
+        .stdout(Stdio::piped())
+        .stderr(Stdio::piped())
+        .spawn()
+        .map_err(|e| format!("cannot spawn worker: {e}"))?;
+    let mut so = child.stdout.take().unwrap();
+    let mut se = child.stderr.take().unwrap();
+    let t1 = std::thread::spawn(move || {
+        let mut s = String::new();
+        let _ = so.read_to_string(&mut s);
+        s
+    });
+    let t2 = std::thread::spawn(move || {
+        let mut s = Vec::new();
+        let _ = se.read_to_end(&mut s);
+        String::from_utf8_lossy(&s).into_owned()
+    });
+    let begun = Instant::now();
+    let mut timed_out = false;
+    let status = loop {
+        match child.try_wait() {
+            Ok(Some(s)) => break s,
+            Ok(None) => {
+                if begun.elapsed() > timeout && !timed_out {
+                    timed_out = true;
+                    let _ = child.kill();
+                }
+                std::thread::sleep(Duration::from_millis(2));
+            }
+            Err(e) => return Err(format!("wait failed: {e}")),
+        }
+    };
+    Ok(ChildOut { stdout: t1.join().unwrap_or_default(), stderr: t2.join().unwrap_or_default(), status, timed_out })
+}
+
+struct Isolated {
+    found: Vec<(usize, String, String, Value)>, // slot order, key, what, case
+    crashed: bool,
+    machinery: Option<String>,
+}
+
+/// Re-runs one case alone. `mode` = worker arguments without the trailing slot_from.
+/// Every slot is announced; a death is attributed to the last announced slot and
+/// (if `full`) the run resumes behind it.
+fn isolate(mode: &[String], fam_name: &str, idx: Option<u64>, input: &Input, full: bool) -> Isolated {
+    let all = exec::slots();
+    let mut out = Isolated { found: Vec::new(), crashed: false, machinery: None };
+    let mut slot_from = 0usize;
+    loop {
+        let mut args = mode.to_vec();
+        args.push(slot_from.to_string());
+        let co = match run_child(&args, WATCHDOG) {
+            Ok(c) => c,
+            Err(e) => {
+                out.machinery = Some(e);
+                return out;
+            }
+        };
+        let mut last_slot = None;
+        let mut done = false;
+        for line in co.stdout.lines() {
+            match line.as_bytes().first() {
+                Some(b'E') => last_slot = line[1..].parse::<usize>().ok(),
+                Some(b'V') => {
+                    if let Ok(v) = serde_json::from_str::<Value>(&line[1..]) {
+                        out.found.push((
+                            last_slot.unwrap_or(0),
+                            v["key"].as_str().unwrap_or("C02:?").to_string(),
+                            v["what"].as_str().unwrap_or("").to_string(),
+                            v["case"].clone(),
+                        ));
+                    }
+                }
+                Some(b'D') => done = true,
+                Some(b'H') => {
+                    out.machinery = Some(format!("worker harness failure: {}", &line[1..]));
+                    return out;
+                }
+                _ => {}
+            }
+        }
+        if done && co.status.success() {
+            return out;
+        }
+        let Some(k) = last_slot else {
+            out.machinery = Some(format!("isolated worker died before announcing a slot: {:?} {}", co.status, co.stderr.trim()));
+            return out;
+        };
+        out.crashed = true;
+        let slot = all[k];
+        let (frag, text) = death(&co.status, co.timed_out);
+        let bytes = input.materialize();
+        let r = exec::classify(&bytes);
+        let stderr_tail = stderr_digest(&co.stderr);
+        out.found.push((
+            k,
+            format!("C02:{}:{}", ENTRIES[slot.entry], frag),
+            format!("{} {text}{}; {}", slot.name(), if stderr_tail.is_empty() { String::new() } else { format!(" (stderr: {stderr_tail})") }, exec::describe_input(&bytes, &r)),
+            {
+                let mut c = case_json(fam_name, idx, input, &slot.name());
+                c["died"] = json!(text);
+                c
+            },
+        ));
+        if !full {
+            return out;
+        }
+        slot_from = k + 1;
+    }
+}
+
+struct Watch {
+    pid: AtomicU32,
+    last_ms: AtomicU64,
+    killed: AtomicBool,
+}
+
+#[derive(Default)]
+struct Agg {
+    counters: Counters,
+    hashes: Vec<u64>,
+    found: Vec<Found>,
+    samples: BTreeMap<(usize, u64), Value>,
+    machinery: Vec<String>,
+    crashes: u64,
+    worker_processes: u64,
+    per_family_inputs: BTreeMap<usize, u64>,
+}
+
+struct Shared<'a> {
+    tier: Tier,
+    fams: &'a [Family],
+    queue: Mutex<VecDeque<(usize, u64, u64)>>,
+    agg: Mutex<Agg>,
+    watch: Vec<Watch>,
+    crash_cases: AtomicU32,
+    t0: Instant,
+    finished: AtomicBool,
+}
+
+fn run_batch(sh: &Shared, me: usize, fi: usize, start: u64, end: u64) {
+    let fam = &sh.fams[fi];
+    let mut cur = start;
+    while cur < end {
+        let mut child = match Command::new(exe())
+            .args(["C02", "--worker", "batch", sh.tier.name(), &fi.to_string(), &cur.to_string(), &end.to_string()])
+            .env("RUST_BACKTRACE", "0")
+            .stdin(Stdio::null())
+            .stdout(Stdio::piped())
+            .stderr(Stdio::null())
+            .spawn()
+        {
+            Ok(c) => c,
+            Err(e) => {
+                sh.agg.lock().unwrap().machinery.push(format!("cannot spawn worker: {e}"));
+                return;
+            }
+        };
+        let w = &sh.watch[me];
+        w.killed.store(false, Ordering::SeqCst);
+        w.last_ms.store(sh.t0.elapsed().as_millis() as u64, Ordering::SeqCst);
+        w.pid.store(child.id(), Ordering::SeqCst);
+        let mut last_idx: Option<u64> = None;
+        let mut hashes = Vec::new();
+        let mut found = Vec::new();
+        let mut samples = Vec::new();
+        let mut counters: Option<Value> = None;
+        let mut harness: Option<String> = None;
+        let rd = BufReader::new(child.stdout.take().unwrap());
+        for line in rd.lines() {
+            let Ok(line) = line else { break };
+            match line.as_bytes().first() {
+                Some(b'@') => {
+                    let mut it = line[1..].split(' ');
+                    let idx = it.next().and_then(|s| s.parse::<u64>().ok());
+                    let h = it.next().and_then(|s| u64::from_str_radix(s, 16).ok());
+                    if let (Some(i), Some(h)) = (idx, h) {
+                        last_idx = Some(i);
+                        hashes.push(h);
+                        w.last_ms.store(sh.t0.elapsed().as_millis() as u64, Ordering::Relaxed);
+                    }
+                }
+                Some(b'V') => {
+                    if let Ok(v) = serde_json::from_str::<Value>(&line[1..]) {
+                        found.push(Found {
+                            fam: fi,
+                            idx: last_idx.unwrap_or(0),
+                            slot_order: found.len(),
+                            key: v["key"].as_str().unwrap_or("C02:?").to_string(),
+                            what: v["what"].as_str().unwrap_or("").to_string(),
+                            case: v["case"].clone(),
+                        });
+                    }
+                }
+                Some(b'S') => {
+                    if let Ok(v) = serde_json::from_str::<Value>(&line[1..]) {
+                        samples.push((last_idx.unwrap_or(0), v));
+                    }
+                }
+                Some(b'D') => counters = serde_json::from_str::<Value>(&line[1..]).ok(),
+                Some(b'H') => harness = Some(line[1..].to_string()),
+                _ => {}
+            }
+        }
+        let status = child.wait();
+        w.pid.store(0, Ordering::SeqCst);
+        let timed_out = w.killed.load(Ordering::SeqCst);
+        {
+            let mut a = sh.agg.lock().unwrap();
+            a.worker_processes += 1;
+            *a.per_family_inputs.entry(fi).or_insert(0) += hashes.len() as u64;
+            a.hashes.append(&mut hashes);
+            a.found.append(&mut found);
+            for (i, s) in samples {
+                a.samples.insert((fi, i), s);
+            }
+            if let Some(c) = &counters {
+                a.counters.add_json(c);
+            }
+            if let Some(h) = &harness {
+                a.machinery.push(format!("worker harness failure in {} batch {cur}..{end}: {h}", fam.name));
+            }
+        }
+        if harness.is_some() {
+            return;
+        }
+        let status = match status {
+            Ok(s) => s,
+            Err(e) => {
+                sh.agg.lock().unwrap().machinery.push(format!("wait failed: {e}"));
+                return;
+            }
+        };
+        if counters.is_some() && status.success() {
+            return;
+        }
+        // the worker died: the last announced case is the one that was running
+        let Some(idx) = last_idx else {
+            sh.agg.lock().unwrap().machinery.push(format!(
+                "worker for {} {cur}..{end} died before announcing a case: {status:?}",
+                fam.name
+            ));
+            return;
+        };
+        let (_, how) = death(&status, timed_out);
+        let full = sh.crash_cases.fetch_add(1, Ordering::SeqCst) < FULL_ATTRIBUTION_CASES;
+        let input = fam.get(idx);
+        let mode = vec!["case".to_string(), sh.tier.name().to_string(), fi.to_string(), idx.to_string()];
+        let iso = isolate(&mode, fam.name, Some(idx), &input, full);
+        {
+            let mut a = sh.agg.lock().unwrap();
+            a.crashes += 1;
+            if let Some(m) = iso.machinery {
+                a.machinery.push(m);
+            } else if !iso.crashed {
+                a.machinery.push(format!(
+                    "worker {how} at {} case {idx}, but the case run alone completed: not reproducible",
+                    fam.name
+                ));
+            }
+            for (order, key, what, case) in iso.found {
+                // findings printed by the batch worker for this case were lost with it; these replace them
+                a.found.push(Found { fam: fi, idx, slot_order: order, key, what, case });
+            }
+        }
+        cur = idx + 1;
+    }
+}
+
+#[derive(Default)]
+struct NetOutcome {
+    found: Vec<(usize, String, String, Value)>,
+    stats: BTreeMap<String, u64>,
+    machinery: Vec<String>,
+    deaths: u64,
+    processes: u64,
+}
+
+struct NetChild {
+    last: Option<usize>,
+    done: bool,
+    co: ChildOut,
+}
+
+fn net_child(from: usize, to: usize, out: &mut NetOutcome) -> Option<NetChild> {
+    out.processes += 1;
+    let co = match run_child(&["net".to_string(), from.to_string(), to.to_string()], Duration::from_secs(600)) {
+        Ok(c) => c,
+        Err(e) => {
+            out.machinery.push(e);
+            return None;
+        }
+    };
+    let mut last = None;
+    let mut done = false;
+    for line in co.stdout.lines() {
+        match line.as_bytes().first() {
+            Some(b'@') => last = line[1..].parse::<usize>().ok(),
+            Some(b'V') => {
+                if let Ok(v) = serde_json::from_str::<Value>(&line[1..]) {
+                    out.found.push((
+                        last.unwrap_or(0),
+                        v["key"].as_str().unwrap_or("C02:net:?").to_string(),
+                        v["what"].as_str().unwrap_or("").to_string(),
+                        v["case"].clone(),
+                    ));
+                }
+            }
+            Some(b'D') => {
+                done = true;
+                if let Ok(Value::Object(m)) = serde_json::from_str::<Value>(&line[1..]) {
+                    for (k, n) in m {
+                        *out.stats.entry(k).or_insert(0) += n.as_u64().unwrap_or(0);
+                    }
+                }
+            }
+            Some(b'H') => out.machinery.push(format!("net worker harness failure: {}", &line[1..])),
+            _ => {}
+        }
+    }
+    Some(NetChild { last, done, co })
+}
+
+/// Second phase: hostile headers over loopback TCP, in a child process; a dead child is
+/// blamed on the announced scenario, confirmed by running that scenario alone.
+fn run_net(from: usize, to: usize, confirm: bool) -> NetOutcome {
+    let mut out = NetOutcome::default();
+    let mut from = from;
+    while from < to {
+        let Some(ch) = net_child(from, to, &mut out) else { break };
+        if !out.machinery.is_empty() || (ch.done && ch.co.status.success()) {
+            break;
+        }
+        let Some(k) = ch.last else {
+            out.machinery.push(format!("net worker died before its first scenario: {:?} {}", ch.co.status, ch.co.stderr.trim()));
+            break;
+        };
+        out.deaths += 1;
+        let mut died = ch;
+        if confirm {
+            match net_child(k, k + 1, &mut out) {
+                Some(c2) if !(c2.done && c2.co.status.success()) => died = c2,
+                Some(_) => {
+                    out.machinery.push(format!("net worker died in scenario {} but the scenario alone completed: not reproducible", net::scenario_name(k)));
+                    break;
+                }
+                None => break,
+            }
+        }
+        let (frag, text) = death(&died.co.status, died.co.timed_out);
+        let stderr_tail = stderr_digest(&died.co.stderr);
+        let name = net::scenario_name(k);
+        let ep = name.split(' ').next().unwrap_or("?").to_string();
+        out.found.push((
+            k,
+            format!("C02:net:{ep}:{frag}"),
+            format!("{name}: the hostile bytes {text}{}", if stderr_tail.is_empty() { String::new() } else { format!(" (stderr: {stderr_tail})") }),
+            {
+                let hs = net::hostiles();
+                let h = &hs[k % hs.len()];
+                json!({"net": {"scenario": k, "endpoint": ep, "hostile": h.name, "bytes_hex": cases::hex(&h.bytes), "died": text}})
+            },
+        ));
+        from = k + 1;
+    }
+    out
+}
+
+pub fn run(tier: Tier) -> ! {
+    let ctx = Ctx::new("C02", tier);
+    let fams = families(tier);
+    let slots = exec::slots();
+    let nworkers = crate::par::workers();
+    let mut queue = VecDeque::new();
+    for (fi, f) in fams.iter().enumerate() {
+        let mut s = 0;
+        while s < f.len {
+            let e = (s + f.batch).min(f.len);
+            queue.push_back((fi, s, e));
+            s = e;
+        }
+    }
+    let batches = queue.len();
+    let sh = Shared {
+        tier,
+        fams: &fams,
+        queue: Mutex::new(queue),
+        agg: Mutex::new(Agg::default()),
+        watch: (0..nworkers).map(|_| Watch { pid: AtomicU32::new(0), last_ms: AtomicU64::new(0), killed: AtomicBool::new(false) }).collect(),
+        crash_cases: AtomicU32::new(0),
+        t0: Instant::now(),
+        finished: AtomicBool::new(false),
+    };
+    std::thread::scope(|sc| {
+        let shr = &sh;
+        let dog = sc.spawn(move || {
+            while !shr.finished.load(Ordering::SeqCst) {
+                std::thread::sleep(Duration::from_millis(250));
+                let now = shr.t0.elapsed().as_millis() as u64;
+                for w in &shr.watch {
+                    let pid = w.pid.load(Ordering::SeqCst);
+                    if pid != 0 && now.saturating_sub(w.last_ms.load(Ordering::SeqCst)) > WATCHDOG.as_millis() as u64 {
+                        w.killed.store(true, Ordering::SeqCst);
+                        unsafe {
+                            libc::kill(pid as i32, libc::SIGKILL);
+                        }
+                        w.last_ms.store(now, Ordering::SeqCst);
+                    }
+                }
+            }
+        });
+        let hs: Vec<_> = (0..nworkers)
+            .map(|me| {
+                sc.spawn(move || {
+                    loop {
+                        let job = shr.queue.lock().unwrap().pop_front();
+                        let Some((fi, s, e)) = job else { break };
+                        run_batch(shr, me, fi, s, e);
+                    }
+                })
+            })
+            .collect();
+        for h in hs {
+            let _ = h.join();
+        }
+        sh.finished.store(true, Ordering::SeqCst);
+        let _ = dog.join();
+    });
+    let mut agg = sh.agg.into_inner().unwrap();
+
+    // ---- second phase (after the first, so that its waits are not competing with 16 busy workers)
+    let net_n = net::scenario_count();
+    let net = run_net(0, net_n, true);
+    agg.machinery.extend(net.machinery.iter().cloned());
+    for (k, key, what, case) in &net.found {
+        agg.found.push(Found { fam: usize::MAX, idx: *k as u64, slot_order: 0, key: key.clone(), what: what.clone(), case: case.clone() });
+    }
+
+    // ---- violations, in canonical order (family, case, slot)
+    agg.found.sort_by(|a, b| (a.fam, a.idx, a.slot_order, &a.key).cmp(&(b.fam, b.idx, b.slot_order, &b.key)));
+    for f in &agg.found {
+        ctx.violation(f.key.clone(), f.what.clone(), f.case.clone());
+    }
+    if !agg.machinery.is_empty() && !ctx.has_violation() {
+        ctx.machinery(agg.machinery.join(" ;; "));
+    }
+    for m in &agg.machinery {
+        ctx.note(format!("machinery problem while violations were also found: {m}"));
+    }
+
+    let c = &agg.counters;
+    let expected_inputs: u64 = fams.iter().map(|f| f.len).sum();
+    let announced = agg.hashes.len() as u64;
+    agg.hashes.sort_unstable();
+    agg.hashes.dedup();
+    let distinct = agg.hashes.len() as u64;
+    let exhaustive = announced == expected_inputs && agg.machinery.is_empty();
+
+    // ---- notes (outside the statement of C02)
+    let converse: u64 = c.per_entry.iter().map(|e| e[4]).sum();
+    if converse > 0 {
+        ctx.note(format!(
+            "NOTE (not a C02 violation; that direction belongs to C01): {converse} executions rejected a complete consistent frame, per entry point {:?}; e.g. {}",
+            ENTRIES.iter().zip(c.per_entry.iter()).filter(|(_, e)| e[4] > 0).map(|(n, e)| format!("{n}={}", e[4])).collect::<Vec<_>>(),
+            c.converse_example.clone().unwrap_or_default()
+        ));
+    }
+    if c.over_consumed > 0 {
+        ctx.note(format!("NOTE: {} successful stream reads consumed a number of bytes different from the frame size (C05 territory)", c.over_consumed));
+    }
+    if c.other_header_field_diff > 0 {
+        ctx.note(format!("NOTE: {} successful parses returned a header differing from the input in a field other than length/spec/query_length/body_length (C01 territory)", c.other_header_field_diff));
+    }
+    if c.new_accepts_mismatch > 0 {
+        ctx.note(format!("NOTE: Message::new accepted {} (header, query, body) triples whose lengths disagree (constructor, not bound by the statement)", c.new_accepts_mismatch));
+    }
+
+    // ---- non-vacuity (machinery, never a verdict)
+    if !ctx.has_violation() {
+        let mut vac = Vec::new();
+        if announced != expected_inputs {
+            vac.push(format!("{announced} cases announced, {expected_inputs} enumerated"));
+        }
+        if c.inputs != expected_inputs {
+            vac.push(format!("workers counted {} inputs, {expected_inputs} enumerated", c.inputs));
+        }
+        for (i, n) in ENTRIES.iter().enumerate() {
+            let e = c.per_entry[i];
+            // e[1] + e[4] = executions on inputs the reference parser accepts; what the harness must
+            // guarantee is that such inputs were presented. An implementation that rejects all of them
+            // satisfies "a parse succeeds only when ..." trivially (noted above; C01 decides that direction).
+            if e[0] == 0 || e[1] + e[4] == 0 || e[2] == 0 {
+                vac.push(format!("{n}: executions={} ok={} rejected-though-complete={} err={}", e[0], e[1], e[4], e[2]));
+            } else if e[1] == 0 {
+                ctx.note(format!("NOTE: {n} never returned Ok although {} complete consistent frames were presented; its Ok-side clauses were not exercised", e[4]));
+            }
+        }
+        for (i, n) in REF_CLASSES.iter().enumerate() {
+            if c.ref_class[i] == 0 {
+                vac.push(format!("no input of reference class {n}"));
+            }
+        }
+        if c.stream_huge_consistent_exec == 0 {
+            vac.push("no consistent >= 2^62 header reached a stream reader".into());
+        }
+        if c.stream_big_alloc_exec == 0 || c.stream_big_ok == 0 {
+            vac.push("no 16 MiB frame reached / was parsed by a stream reader".into());
+        }
+        if c.into_reused_ok == 0 || c.pending_ok == 0 {
+            vac.push("reused-buffer or Pending-interleaved stream slots never succeeded".into());
+        }
+        let ns = |k: &str| net.stats.get(k).copied().unwrap_or(0);
+        let per_ep = (net_n / net::ENDPOINTS.len()) as u64;
+        if ns("scenarios") != net_n as u64
+            || ns("server_closed") + ns("server_error_reply") != 2 * per_ep
+            || ns("liveness_ok") != 2 * per_ep
+            || ns("client_call_err") != 2 * per_ep
+        {
+            vac.push(format!("network phase incomplete: {:?} for {net_n} scenarios", net.stats));
+        }
+        if !vac.is_empty() {
+            ctx.machinery(format!("vacuous run: {}", vac.join("; ")));
+        }
+    }
+
+    let samples = Samples::new(12);
+    for ((fi, idx), s) in &agg.samples {
+        let _ = (fi, idx);
+        samples.offer(|| s.clone());
+    }
+    let per_entry: BTreeMap<&str, Value> = ENTRIES
+        .iter()
+        .enumerate()
+        .map(|(i, n)| {
+            let e = c.per_entry[i];
+            let errs: BTreeMap<&str, u64> =
+                ERR_CLASSES.iter().enumerate().filter(|(k, _)| c.err_class[i][*k] > 0).map(|(k, n)| (*n, c.err_class[i][k])).collect();
+            (*n, json!({"executions": e[0], "ok": e[1], "err": e[2], "panic_or_hang": e[3], "rejected_complete_frame": e[4], "err_kinds": errs}))
+        })
+        .collect();
+    let distinct_outcomes: usize = (0..10)
+        .map(|i| (c.per_entry[i][1] > 0) as usize + (c.per_entry[i][3] > 0) as usize + c.err_class[i].iter().filter(|&&n| n > 0).count())
+        .sum();
+    let coverage = json!({
+        "states": distinct,
+        "transitions": c.executions + net.stats.get("scenarios").copied().unwrap_or(0),
+        "traces_validated_against_impl": c.executions + net.stats.get("scenarios").copied().unwrap_or(0),
+        "parser_reader_executions": c.executions,
+        "network_phase": {
+            "what": "each hostile header sent over loopback TCP as a request to repe::Server and repe::AsyncServer (after one valid echo on the same connection)                      and as the response to a pending call of repe::Client and repe::AsyncClient; oracle: no thread panics, process survives, server closes or answers with an error                      and still serves a fresh connection, the pending call returns an error within 10 s",
+            "endpoints": net::ENDPOINTS,
+            "hostile_headers": net::hostiles().iter().map(|h| h.name.clone()).collect::<Vec<_>>(),
+            "scenarios_enumerated": net_n,
+            "measured": net.stats,
+            "worker_deaths": net.deaths,
+            "worker_processes": net.processes,
+            "not_covered": "WebSocketServer / WebSocketClient (they parse with MessageView::from_slice_exact, covered in the first phase)",
+        },
+        "inputs_executed": announced,
+        "inputs_enumerated": expected_inputs,
+        "exhaustive": exhaustive,
+        "rule": "every input of every family (index order) x every applicable slot; slot = entry point x stream read size {1,7,48,all} x {fresh, reused} buffer x {ready, Pending-interleaved} stream; \
+                 stream readers only see inputs whose three declared lengths are each <= 16 MiB or >= 2^62; cases run in child processes, a dead child is attributed to the announced case and slot",
+        "bound": {
+            "max_input_bytes": "4096 (+ one complete 16 MiB frame)",
+            "slots_per_input": slots.len(),
+            "tier": tier.name(),
+        },
+        "alphabet": fams.iter().enumerate().map(|(i, f)| json!({"family": f.name, "inputs": f.len, "executed": agg.per_family_inputs.get(&i).copied().unwrap_or(0), "what": f.describe})).collect::<Vec<_>>(),
+        "slots": slots.iter().map(|s| s.name()).collect::<Vec<_>>(),
+        "entry_points": per_entry,
+        "distinct_outcomes": distinct_outcomes,
+        "nonvacuity": {
+            "reference_classes": REF_CLASSES.iter().enumerate().map(|(i, n)| (n.to_string(), json!(c.ref_class[i]))).collect::<serde_json::Map<_, _>>(),
+            "inputs_given_to_stream_readers": c.stream_inputs,
+            "inputs_withheld_from_stream_readers_midrange_length": c.stream_inputs_skipped_midrange,
+            "stream_executions_consistent_header_ge_2pow62": c.stream_huge_consistent_exec,
+            "stream_executions_some_field_ge_2pow62": c.stream_huge_field_exec,
+            "stream_executions_consistent_header_gt_1MiB": c.stream_big_alloc_exec,
+            "stream_ok_gt_1MiB": c.stream_big_ok,
+            "stream_err_unallocatable": (6..10).map(|i| c.err_class[i][5]).sum::<u64>(),
+            "into_reused_buffer_ok": c.into_reused_ok,
+            "pending_interleaved_ok": c.pending_ok,
+            "message_new_accepts_length_disagreement": c.new_accepts_mismatch,
+            "rejected_complete_frame_executions": converse,
+        },
+        "worker_processes": agg.worker_processes,
+        "batches": batches,
+        "worker_deaths": agg.crashes,
+        "violating_executions": c.violations,
+        "violating_executions_by_key": c.violations_by_key,
+        "samples": samples.take(),
+    });
+    ctx.finish(
+        "model_checking",
+        coverage,
+        &[
+            "inputs are boundary classes x exhaustive single-point mutations, not all 2^32768 strings of <= 4 KiB",
+            "out-of-bounds reads are observable only as panics (safe Rust) or as views not aliasing the input",
+            "an allocation of <= 32 MiB succeeds and one of >= 2^62 bytes fails on the machine running the check",
+            "declared lengths in (16 MiB, 2^62) are given to the slice parsers only",
+            "a hang is a worker announcing nothing for 90 s (confirmed by re-running the case alone)",
+        ],
+    )
+}
+
+/// Re-executes one recorded input on every entry point in a child process.
+pub fn replay(case: &Value) -> Result<(), String> {
+    if case.get("net").is_some() {
+        // by (endpoint, hostile name) when recorded, so that the case survives a reordered list
+        let hs = net::hostiles();
+        let by_name = case["net"]["endpoint"].as_str().zip(case["net"]["hostile"].as_str()).and_then(|(e, n)| {
+            let ei = net::ENDPOINTS.iter().position(|x| *x == e)?;
+            let hi = hs.iter().position(|h| h.name == n)?;
+            Some(ei * hs.len() + hi)
+        });
+        let k = by_name.or(case["net"]["scenario"].as_u64().map(|k| k as usize)).ok_or("net case without scenario")?;
+        let out = run_net(k, k + 1, false);
+        if !out.machinery.is_empty() {
+            return Err(format!("machinery: {}", out.machinery.join("; ")));
+        }
+        if out.found.is_empty() {
+            return Ok(());
+        }
+        return Err(summarize(out.found.iter().map(|(_, k, w, _)| format!("{k} :: {w}")).collect()));
+    }
+    let input = Input::from_json(&case["input"])?;
+    let mode = vec!["hex".to_string(), cases::hex(&input.head), input.tail_len.to_string()];
+    let iso = isolate(&mode, "replay", None, &input, true);
+    if let Some(m) = iso.machinery {
+        return Err(format!("machinery: {m}"));
+    }
+    if iso.found.is_empty() {
+        return Ok(());
+    }
+    Err(summarize(iso.found.iter().map(|(_, k, w, _)| format!("{k} :: {w}")).collect()))
+}
+
+fn summarize(lines: Vec<String>) -> String {
+    let n = lines.len();
+    let mut out: Vec<String> = lines.into_iter().take(8).collect();
+    if n > 8 {
+        out.push(format!("... and {} more violating entry-point executions on this input", n - 8));
+    }
+    out.join("\n")
 }
